@@ -9,6 +9,7 @@ package main
 import (
 	"fmt"
 	"go/constant"
+	"go/token"
 	"go/types"
 	"reflect"
 	"sort"
@@ -528,8 +529,89 @@ func headerNameLemmas(prog *Program) []*lemmaQuery {
 	return out
 }
 
+// selfCallLemmas: termination is not verified by the engine; one pattern is decided all the same because it never
+// terminates: a function that calls itself with exactly its own parameters (receiver included), reached from its
+// entry without any effect in between - the callee's state is the caller's state.
+// Functions of the repository outside generated code; pkg/*.pb.go excluded. One obligation per package.
+func selfCallLemmas(prog *Program) []*lemmaQuery {
+	bad := map[string][]string{}
+	count := map[string]int{}
+	for key, fn := range prog.funcs {
+		if fn.Pkg == nil || !strings.HasPrefix(fn.Pkg.Pkg.Path(), repoModule) || len(fn.Blocks) == 0 {
+			continue
+		}
+		if pos := prog.fset.Position(fn.Pos()); strings.HasSuffix(pos.Filename, ".pb.go") {
+			continue
+		}
+		pkg := strings.TrimPrefix(fn.Pkg.Pkg.Path(), repoModule+"/")
+		count[pkg]++
+		// walk the control flow graph from the entry through instructions without effects (no other call, no
+		// store, no channel operation): a self-call with the function's own arguments met on such a path repeats
+		// the very same computation - it cannot terminate. (A coroutine that retries itself after a store
+		// round trip is not such a path: the yield lies in between and the database has moved.)
+		seen := map[*ssa.BasicBlock]bool{}
+		stack := []*ssa.BasicBlock{fn.Blocks[0]}
+		for len(stack) > 0 {
+			b := stack[len(stack)-1]
+			stack = stack[:len(stack)-1]
+			if seen[b] {
+				continue
+			}
+			seen[b] = true
+			pure := true
+			for _, in := range b.Instrs {
+				switch v := in.(type) {
+				case *ssa.Call:
+					if _, isBuiltin := v.Call.Value.(*ssa.Builtin); isBuiltin {
+						continue
+					}
+					if v.Call.StaticCallee() == fn && len(v.Call.Args) == len(fn.Params) && len(fn.Params) > 0 {
+						same := true
+						for i, a := range v.Call.Args {
+							if a != ssa.Value(fn.Params[i]) {
+								same = false
+							}
+						}
+						if same {
+							bad[pkg] = append(bad[pkg], key+" @ "+prog.fset.Position(v.Pos()).String())
+						}
+					}
+					pure = false
+				case *ssa.Store, *ssa.Send, *ssa.Go, *ssa.Defer, *ssa.RunDefers, *ssa.MapUpdate, *ssa.Select, *ssa.Panic:
+					pure = false
+				case *ssa.UnOp:
+					if v.Op == token.ARROW {
+						pure = false
+					}
+				}
+				if !pure {
+					break
+				}
+			}
+			if pure {
+				stack = append(stack, b.Succs...)
+			}
+		}
+	}
+	var pkgs []string
+	for p := range count {
+		pkgs = append(pkgs, p)
+	}
+	sort.Strings(pkgs)
+	var out []*lemmaQuery
+	for _, p := range pkgs {
+		sort.Strings(bad[p])
+		out = append(out, structural(fmt.Sprintf("no function of %s calls itself with exactly its own arguments (%d functions)", p, count[p]), p, len(bad[p]) == 0, strings.Join(bad[p], "; ")))
+	}
+	return out
+}
+
 func extraObligations(prog *Program, prop, tier string) []*lemmaQuery {
 	out := extraObligations0(prog, prop, tier)
+	switch prop {
+	case "C12", "C13":
+		out = append(out, selfCallLemmas(prog)...)
+	}
 	switch prop {
 	case "C03", "C15", "C20", "C01":
 		out = append(out, headerNameLemmas(prog)...)
